@@ -374,3 +374,9 @@ example (P : Prims) (env : Env) (A B C : List Node) :
       (branchFires P env) = some (CondT.expr 2 (.lit (.int .int 0)), B) := rfl
 example (P : Prims) (env : Env) (A : List Node) :
     [(CondT.expr 1 (.lit .nil), A)].find? (branchFires P env) = none := rfl
+/-- with a comparison that never holds, a `case` with one `when` and an `else` selects the `else` clause -/
+example (env : Env) (sel : GoVal) (A B : List Node) :
+    [(some (1, [Expr.lit (.int .int 2)]), A), (none, B)].find?
+      (clauseFires { equal := fun _ _ => .ok false, less := fun _ _ => .ok false, contains := fun _ _ => .ok false,
+                     equalFn := fun _ _ => .ok false, applyFilter := fun _ v _ => .ok v, hasFilter := fun _ => false }
+        env sel) = some (none, B) := rfl
